@@ -166,6 +166,12 @@ func consumeStream(st *anyStream, tok string, n int, slow bool, budget time.Dura
 	return consumeStreamSkipping(st, tok, n, slow, budget, -1)
 }
 
+// streamBudget is the total time a consumer allows for a stream of n values: 8 s plus a millisecond per value (tens
+// of thousands of values take seconds on a saturated machine; a stream that has stopped stays stopped).
+func streamBudget(n int) time.Duration {
+	return 8*time.Second + time.Duration(n)*time.Millisecond
+}
+
 // consumeHead reads the first k values of a stream.
 func consumeHead(st *anyStream, tok string, k int, budget time.Duration) *Violation {
 	deadline := time.Now().Add(budget)
@@ -359,14 +365,14 @@ func runC07(c c07Case) (*Violation, string) {
 				if s.Type == "nan" {
 					skip = s.N / 2
 				}
-				s.v = consumeStreamFrom(s.st, s.tok, s.N, 3, 8*time.Second, skip)
+				s.v = consumeStreamFrom(s.st, s.tok, s.N, 3, streamBudget(s.N), skip)
 				return
 			}
 			skip := -1
 			if s.Type == "nan" {
 				skip = s.N / 2
 			}
-			s.v = consumeStreamSkipping(s.st, s.tok, s.N, s.Consumer == "slow", 8*time.Second, skip)
+			s.v = consumeStreamSkipping(s.st, s.tok, s.N, s.Consumer == "slow", streamBudget(s.N), skip)
 		}(s)
 	}
 	// unary calls interleaved with the streams must not be blocked by any consumer
@@ -427,7 +433,7 @@ func runC07(c c07Case) (*Violation, string) {
 			if s.Type == "nan" {
 				skip = s.N / 2
 			}
-			if v := consumeStreamSkipping(s.st, s.tok, s.N, false, 8*time.Second, skip); v != nil {
+			if v := consumeStreamSkipping(s.st, s.tok, s.N, false, streamBudget(s.N), skip); v != nil {
 				return v, ""
 			}
 		}
